@@ -33,7 +33,9 @@ def _pg():
 # interaction between the components' corrections / rings likely
 RICH_POOL = ['C/C=C\\C', 'C/C=C/C', 'CC=C(C)C', 'CC=CC', 'C/C=C\\CC', 'CC(C)=C(C)C', 'C/C=C\\C=C', 'CC(C)C(C)C', 'CC(C)(C)C(C)C', 'CCC(C)CC',
              'CC(C)CC(C)C', 'C1CCOCC1', 'C1COCCO1', 'O1CCCCC1C', 'C1CCOC=C1', 'C1CCCCC1', 'C1CC1', 'C1CCC1', 'C1CCCC1', 'c1ccccc1', 'Cc1ccccc1',
-             'Cc1ccccc1C', 'Oc1ccccc1', 'c1ccccc1-c1ccccc1', 'COC', 'CCOCC', 'COC(C)C', 'C=CC=C', 'C1=CCCCC1', 'C1=CC=CCC1', 'CC#CC', 'OCC(O)CO']
+             'Cc1ccccc1C', 'Oc1ccccc1', 'c1ccccc1-c1ccccc1', 'COC', 'CCOCC', 'COC(C)C', 'C=CC=C', 'C1=CCCCC1', 'C1=CC=CCC1', 'CC#CC', 'OCC(O)CO',
+             # molecules with a group that is tabulated WITHOUT heat-capacity data (valid range 298-300 K only)
+             'CC(C)C(C)=O', 'OCc1ccccc1', 'CC(C)C(C)=O', 'OCc1ccccc1']
 RICH_SURFACE = ['[{M}]C([{M}])C', 'C[{M}]', '[{M}]CC[{M}]', 'OC[{M}]', 'C(=O)([{M}])O', '[{M}]C([{M}])C([{M}])([{M}])C', 'CC([{M}])O', '[{M}]OC', 'O=C[{M}]',
                 '[{M}]C=C[{M}]', 'C1CCOCC1', 'CCC', 'CC(C)C', 'CCO', '[{M}]C([{M}])([{M}])C']
 
@@ -148,7 +150,7 @@ def check_mix(ctx, case):
             elif gm[0] != 'ok' or any(abs(gm[1].get(k, 0) - want.get(k, 0)) > 1e-12 for k in set(gm[1]) | set(want)):
                 ctx.fail('mixture-not-the-sum:Mol-object', '[%s] CombineMols of the explicit-hydrogen Mol objects of %s gives %s, the components sum to %s'
                          % (L, comps, gm if gm[0] != 'ok' else dict(gm[1]), dict(want)))
-        if sum(map(ord, smi)) % 3 == 0:
+        if sum(map(ord, smi)) % 3 == 0 or any(c in ('CC(C)C(C)=O', 'OCc1ccccc1') for c in comps):
             m = _pg()
             try:
                 with warnings.catch_warnings():
@@ -167,9 +169,18 @@ def check_mix(ctx, case):
                         smix = emix.get_SoR(298.15, S_elements=True)
                     except Exception:
                         sel = None
+                    # ... and at a temperature away from the reference one (a component without heat-capacity data answers with a
+                    # warning there; where all sides answer, the answers add up)
+                    try:
+                        h400 = [e.get_HoRT(400.0) for e in ests]
+                        hmix400 = emix.get_HoRT(400.0)
+                    except Exception:
+                        h400 = None
                 ctx.count()
                 if abs(mix - tot) > 1e-9 * max(1.0, abs(tot)):
                     ctx.fail('mixture-estimate-not-the-sum', '[%s] %r: H/RT %r, components sum to %r' % (L, smi, mix, tot))
+                elif h400 is not None and abs(hmix400 - sum(h400)) > 1e-9 * max(1.0, abs(hmix400), sum(abs(x) for x in h400)):
+                    ctx.fail('mixture-estimate-not-the-sum:400K', '[%s] %r: H/RT(400 K) %r, components give %s' % (L, smi, hmix400, h400))
                 elif sel is not None and abs(smix - sum(sel)) > 1e-9 * max(1.0, abs(smix), sum(abs(x) for x in sel)):
                     ctx.fail('mixture-estimate-not-the-sum:elemental-entropy', '[%s] %r: S/R relative to the elements %r, components (estimated before the pair was decomposed, '
                              'evaluated afterwards) give %s' % (L, smi, smix, sel))
